@@ -362,10 +362,15 @@ func (s *Solver) oneShotQ(want *Term) (SatResult, uint64) {
 	if lim < 20 {
 		lim = 20
 	}
-	cmd := exec.Command(s.bin, "-in", "-smt2", fmt.Sprintf("-T:%d", lim))
-	cmd.Stdin = strings.NewReader(sb.String())
-	out, _ := cmd.Output()
+	out := []byte(s.raceOneShot(sb.String(), lim))
 	s.Time += time.Since(t0)
+	if d := os.Getenv("GOSX_DUMPFAIL"); d != "" && !strings.HasPrefix(strings.TrimSpace(string(out)), "sat") && !strings.HasPrefix(strings.TrimSpace(string(out)), "unsat") {
+		if f, err := os.CreateTemp(d, "oneshot-*.smt2"); err == nil {
+			f.WriteString(sb.String())
+			fmt.Fprintf(f, "; output: %q after %v\n", string(out), time.Since(t0))
+			f.Close()
+		}
+	}
 	res := Unknown
 	var val uint64
 	for _, line := range strings.Split(string(out), "\n") {
@@ -618,9 +623,7 @@ func (s *Solver) CheckModel(vars []*Term) (SatResult, map[string]uint64) {
 	if lim < 20 {
 		lim = 20
 	}
-	cmd := exec.Command(s.bin, "-in", "-smt2", fmt.Sprintf("-T:%d", lim))
-	cmd.Stdin = strings.NewReader(sb.String())
-	out, _ := cmd.Output()
+	out := []byte(s.raceOneShot(sb.String(), lim))
 	s.Time += time.Since(t0)
 	txt := string(out)
 	nl := strings.Index(txt, "\n")
@@ -641,4 +644,41 @@ func (s *Solver) CheckModel(vars []*Term) (SatResult, map[string]uint64) {
 	s.Unknowns--
 	s.OneShotDecided++
 	return Sat, res
+}
+
+// raceOneShot runs the script in fresh z3 and cvc5 processes concurrently and returns the output of
+// the first one that answers sat/unsat (the two have complementary strengths on the XOR/varint queries).
+func (s *Solver) raceOneShot(script string, limSec int) string {
+	type ans struct{ out string }
+	ch := make(chan ans, 2)
+	mk := func(bin string, args []string, pre string) *exec.Cmd {
+		cmd := exec.Command(bin, args...)
+		cmd.Stdin = strings.NewReader(pre + script)
+		return cmd
+	}
+	cmds := []*exec.Cmd{
+		mk(s.bin, []string{"-in", "-smt2", fmt.Sprintf("-T:%d", limSec)}, ""),
+		mk("cvc5", []string{"--lang=smt2", "--produce-models", "--fp-exp", fmt.Sprintf("--tlimit=%d", limSec*1000)}, "(set-logic ALL)\n"),
+	}
+	for _, c := range cmds {
+		go func(c *exec.Cmd) {
+			out, _ := c.Output()
+			ch <- ans{string(out)}
+		}(c)
+	}
+	var last string
+	for i := 0; i < len(cmds); i++ {
+		a := <-ch
+		t := strings.TrimSpace(a.out)
+		if strings.HasPrefix(t, "sat") || strings.HasPrefix(t, "unsat") {
+			for _, c := range cmds {
+				if c.Process != nil {
+					c.Process.Kill()
+				}
+			}
+			return a.out
+		}
+		last = a.out
+	}
+	return last
 }
